@@ -110,7 +110,8 @@ def run(body, args) -> bool:
         sdg = json.dumps([tag, dg], default=repr, sort_keys=True)
         nds = json.dumps([ntag, ndg], default=repr, sort_keys=True)
         match = (sdg == nds) and (sym_ok == nok)
-        if not match:
+        # a native failure is reported as a violation candidate by itself; an artifact is a disagreement between two passing runs
+        if not match and nok and sym_ok:
             STATE['artifacts'] += 1
         if not nok:
             STATE['native_fail'] += 1
